@@ -89,12 +89,17 @@ class RefRow:
             return ("unchanged", "frames 10 s or more apart")
         if F.nl(encoded_rlat(a["lat"], 0)) != F.nl(encoded_rlat(b["lat"], 1)):
             return ("unchanged", "zone-straddling pair")
+        # the property quantifies over a small displacement between the two frames (global CPR decoding is
+        # unambiguous only within about half a zone difference, 5.5 km in latitude): same-parity frames in
+        # between can add up to more than that, and such a pair is outside the property
+        if F.haversine_km(float(a["lat"]), float(a["lon"]), float(b["lat"]), float(b["lon"])) > 3.0:
+            return ("unconstrained", "pair more than 3 km apart")
         return ("decode", "valid pair")
 
 class C08(PropBase):
     id = "C08"
-    lean_modules = ["SqModel.Props.C08", "SqModel.Props.C08Math"]
-    extractors = ["nl"]
+    lean_modules = ["SqModel.Props.C08", "SqModel.Props.C08Math", "SqModel.Proofs.Dispatch"]
+    extractors = ["nl", "dispatch"]
     rule = ("histories of 2-7 airborne-position squitters (TC 9-18, DF17) of one aircraft among others: true positions stratified over "
             "every NL transition latitude +-1e-6..3e-2 deg, even/odd latitude-zone edges, equator, +-86.9/86.9999, antimeridian, Greenwich, "
             "longitude-zone edges, uniform; both hemispheres; either parity first; displacement 0-3 km between frames; delays 0, 2, 9.5, "
